@@ -227,7 +227,7 @@ def run_history(events, active=False):
                 body = b"" if wellformed else b"\x01"
                 ses.rig.conn.feed(frame(0, system, stream=s, function=f, w=w, body=body, session=0))
                 ses.settle()
-                coq_events.append(f"(EvData {L.z(system)} {L.bool_(wellformed)})")
+                coq_events.append(f"(EvData {L.z(system)} {L.bool_(bool(w))} {L.bool_(wellformed)})")
             elif kind == "open":
                 _, stype, tag = ev
                 if not ses.rig.conn.connected:
@@ -332,6 +332,8 @@ def gen_cases(rnd, tier):
         [("connected",), ("open", 1, "a"), ("ctrl", 2, "a", 3), ("open", 1, "b"), ("ctrl", 2, "b", 0), ("open", 3, "c"), ("ctrl", 4, "c", 0)],
         [("connected",), ("ctrl", 1, 8, 0), ("closing",), ("ctrl", 5, 9, 0), ("ctrl", 1, 10, 0), ("ctrl", 3, 11, 0), ("closed",), ("connected",), ("ctrl", 5, 12, 0)],
         [("connected",), ("ctrl", 1, 8, 0), ("open", 5, "a"), ("data", "a", 1, 2, False, True), ("open", 5, "b"), ("giveup", "b"), ("ctrl", 6, "b", 0)],
+        # a primary of the peer (W-bit) that carries the system bytes of one of our open transactions is delivered, the transaction stays open
+        [("connected",), ("ctrl", 1, 8, 0), ("open", 5, "a"), ("data", "a", 1, 1, True, True), ("data", "a", 2, 17, True, True), ("ctrl", 6, "a", 0), ("data", "a", 1, 1, True, True)],
         # Reject.req for an open transaction and for none; Linktest.rsp for an open Select.req
         [("connected",), ("ctrl", 1, 8, 0), ("open", 5, "a"), ("ctrl", 7, "a", 0), ("ctrl", 7, 99, 0), ("open", 3, "b"), ("ctrl", 7, "b", 2), ("data", 9, 1, 1, True, True)],
         # a request already in flight when the connection is accepted
